@@ -1481,6 +1481,6 @@ PROPS['C08'].update(
     explanation='The SEQUENTIAL part of the property: (0) the reader functions themselves (sync_data_reader / scrub_data_reader, whole bodies extracted, callees by stub): a block is handed on as DONE only after a successful open and read (sync: and only if size, seconds, nanoseconds and inode are still the recorded ones); an EIO on read is IOERROR_CONTINUE, on open / close IOERROR; scrub reads a file that looks changed anyway and flags it; the task-state region of sync turns each outcome into the counters and per-stripe flags (I/O error limit included). (1) reader side - sync\'s completion region never records a block as synced when the stripe had an I/O error and always leaves that stripe marked bad; scrub\'s classification region turns a read EIO into an I/O error on this stripe and its book-keeping region marks the stripe bad (keeping time and marks); other stripes are unaffected (per-stripe flags). (2) writer side - the single-threaded I/O path reports every parity write that ended in an error state to the sync loop (genuine defect found and fixed: it reported none), and the loop counts it so that the command fails and stops at the error limit; but no stripe is marked bad for a parity WRITE error (KNOWN-FINDING, shown with the real binary by fault injection). The asynchronous writer queue (errors collected one stripe later, errors after the last collection never read) depends on thread timing and is not decided.',
     trusted_base=['region extraction of state_sync_process / state_scrub_process', 'info_set, fs_*, raid_gen by recording contracts (dfcc replace)', 'the writer function is a stub that sets the task state'],
     assumptions=['threads: cbmc contracts are sequential; io.c worker threads, the ring of task slots and the one-stripe delay of the error report are not modelled', 'the diagnostic text and exit status of the whole command are not function-level statements; only the counters that drive them are checked'],
-    not_covered=['io.c threaded path (io_writer_thread, io_writer_step, io_write_next_thread)', 'parity read errors during the in-memory repair of sync', 'how state_scrub_process consumes the parity reader outcome beyond the classification region'])
+    not_covered=['io.c threaded path as a concurrent system (io_writer_thread, io_write_next_thread, interleavings); of io_writer_step only the sequential semantics of one call is under contract', 'parity read errors during the in-memory repair of sync', 'how state_scrub_process consumes the parity reader outcome beyond the classification region'])
 MANIFEST_TEXT['C08'] = dict(level_text='Narrow: the per-stripe consequences of an I/O error (no BLK, bad mark) and the single-threaded accounting of parity write errors are sequential statements and are decided (one defect fixed, one recorded); the asynchronous queue is not - level other.',
                             design_ref='DESIGN.md sections 4 and 6', level_note='threads not modelled; writer function stubbed; known finding: parity write errors never mark a stripe bad', technique='CBMC drivers / dfcc on real cmdline/io.c (mono path) + extracted regions of sync.c / scrub.c')
